@@ -374,8 +374,30 @@ func init() {
 	reg("time.Now", func(ex *Exec, st *State, fr *Frame, args []Value) (Value, ctlT) {
 		return ex.nowValue(st), ctlRet
 	})
-	reg("time.Sleep", func(ex *Exec, st *State, fr *Frame, args []Value) (Value, ctlT) { return nil, ctlRet })
+	// time.Sleep: the goroutine waits on a one-shot timer. Other goroutines run meanwhile; when nothing else can run
+	// the timer fires (idle rule, shortest duration first). A non-positive duration returns at once.
+	reg("time.Sleep", func(ex *Exec, st *State, fr *Frame, args []Value) (Value, ctlT) {
+		co := st.co()
+		if co.sleepCh.Obj == 0 {
+			d := args[0].(*Term)
+			if d.IsConst() && d.SVal() <= 0 {
+				return nil, ctlRet
+			}
+			p := newTimerFn(ex, st, d, nil, false, "Timer").(PtrVal)
+			tt := ex.prog.byPath["time"].Type("Timer").Type()
+			co.sleepCh = st.load(p.Field(fieldIndex(tt, "C"))).(ChanVal)
+		}
+		if c := ex.chanObj(st, co.sleepCh); len(c.Buf) > 0 {
+			ex.doRecv(st, co.sleepCh, nil)
+			co.sleepCh = ChanVal{}
+			return nil, ctlRet
+		}
+		return nil, ctlBlk
+	})
 	newTimer := func(ex *Exec, st *State, d *Term, fn *FuncVal, ticker bool, typeName string) Value {
+		return newTimerFn(ex, st, d, fn, ticker, typeName)
+	}
+	newTimerFn = func(ex *Exec, st *State, d *Term, fn *FuncVal, ticker bool, typeName string) Value {
 		tt := ex.prog.byPath["time"].Type(typeName).Type()
 		obj := ex.zero(tt).(StructVal)
 		chid := st.alloc(&ChanObj{Cap: 1})
@@ -755,6 +777,8 @@ func (ex *Exec) sprintfSymbolic(st *State, format string, va SliceVal) (StrVal, 
 
 // fireOldestTimer lets time pass when nothing else can run: the pending timer with the shortest duration fires
 // (ties: the oldest), which orders e.g. a 500 ms watchdog before a 10 s request timeout as real time would.
+var newTimerFn func(ex *Exec, st *State, d *Term, fn *FuncVal, ticker bool, typeName string) Value
+
 func (ex *Exec) fireOldestTimer(st *State) bool {
 	best := -1
 	var bestDur int64
